@@ -6,7 +6,7 @@
       the file rendered for such a revision IS the bytes of a well-formed `XrefStreamFile`
 
   so that `load_xrefstream` applies to what the generator writes.  Same restriction as the classic link
-  (Lemmas/LoaderE2ERender.lean): scalar objects written canonically (`SimpleObj`); in addition no object-stream
+  (Lemmas/LoaderE2ERender.lean): objects `SimpleObj` (values of any shape, direct /Length streams); in addition no object-stream
   members.  Unrestricted: choice streams, padding, `ofsAtPad`, /Index partition (`cut`), /Index omitted or not,
   extra width bytes `x1`, `x2`, type-field width, rotation of the dictionary, unfiltered / FlateDecode /
   FlateDecode + PNG-Up storage, free entries, object 0, garbage, binary comment.
@@ -258,7 +258,7 @@ def xspell (lay : RevLay) (es : List XE) (size : Nat) (root : Nat × Nat) : Byte
 def xstmOf (lay : RevLay) (es : List XE) (size : Nat) (root : Nat × Nat) : WStm :=
   ⟨[], natDigits lay.xnum, (wsReq (xspell lay es size root).2).1, [48], [32],
    (wsOpt (wsReq (xspell lay es size root).2).2).1, [60, 60] ++ (xspell lay es size root).1,
-   (wsOpt (wsReq (xspell lay es size root).2).2).1, [10], xdataOf lay es, [10], [10], canonKvs (xallOf lay es size root), 4⟩
+   (wsOpt (wsReq (xspell lay es size root).2).2).1, [10], xdataOf lay es, [10], [10], DocSpec.canonKvs (xallOf lay es size root), 4⟩
 
 /-- a stream object of the shape the encoder writes is legally written -/
 theorem wstm_ok_of (nds w1 w3 tok data : Bytes) (kvs : List (Bytes × Obj))
@@ -319,7 +319,7 @@ theorem xstm_ok (lay : RevLay) (es : List XE) (size : Nat) (root : Nat × Nat) (
   obtain ⟨hok, hnn, hnd⟩ := xall_ok lay es size root hlen h
   obtain ⟨n1, n2, n3⟩ := natDigits_spec lay.xnum hnum
   obtain ⟨body, sep, hb, hse, hsep⟩ := spellRaw_map 3 rawF (xallOf lay es size root) [] lay.ch hok hnd (by simp)
-  have hsp : Spells 4 (.dict (canonKvs (xallOf lay es size root))) ([60, 60] ++ (xspell lay es size root).1) := by
+  have hsp : Spells 4 (.dict (DocSpec.canonKvs (xallOf lay es size root))) ([60, 60] ++ (xspell lay es size root).1) := by
     have hb' : (xspell lay es size root).1 = body ++ (sep ++ [62, 62]) := hb
     rw [hb', ← dictOf_eq_canon _ hnn]
     exact Spells.dict 3 _ body sep hse hsep
@@ -774,12 +774,24 @@ theorem xfileOf_xofs (garbage : Bytes) (binary : Bool) (r : Rev) (h : ∀ o ∈ 
   simp only [XrefStreamFile.xofs, XrefStreamFile.hdr, xfileOf, header_eq, List.length_append]
   omega
 
-theorem xfileOf_written (garbage : Bytes) (binary : Bool) (r : Rev) (h : SimpleRevX r) :
+theorem xfileOf_written_gen (garbage : Bytes) (binary : Bool) (r : Rev) (h : SimpleRevX r) :
+    (xfileOf garbage binary r).objs.map (fun q => ((q.1.num, q.1.gen), (q.1.val q.2).val)) =
+      (renderObjs r.objs (header binary).length).2.2 ++
+        [((r.lay.xnum, 0), ((xsOf binary r).val (xfileOf garbage binary r).xofs).val)] := by
+  have hx : r.lay.xnum ≤ i64Max := Nat.le_of_lt (h.numsFit _ (by simp))
+  rw [xfileOf_objs, List.map_append, renderObjs_body r.objs _ h.objs]
+  simp only [List.map_cons, List.map_nil]
+  have e1 : (xsOf binary r).piece.num = r.lay.xnum := xstm_num _ _ _ _ hx
+  have e2 : (xsOf binary r).piece.gen = 0 := rfl
+  rw [e1, e2]
+  rfl
+
+theorem xfileOf_written (garbage : Bytes) (binary : Bool) (r : Rev) (h : SimpleRevX r) (hv : ∀ o ∈ r.objs, isVal o = true) :
     (xfileOf garbage binary r).objs.map (fun q => ((q.1.num, q.1.gen), (q.1.val q.2).val)) =
       r.objs.map (fun o => ((o.num, o.gen), valOf o)) ++
         [((r.lay.xnum, 0), ((xsOf binary r).val (xfileOf garbage binary r).xofs).val)] := by
   have hx : r.lay.xnum ≤ i64Max := Nat.le_of_lt (h.numsFit _ (by simp))
-  rw [xfileOf_objs, List.map_append, pieces_written r.objs _ h.objs]
+  rw [xfileOf_objs, List.map_append, pieces_written r.objs _ h.objs hv]
   simp only [List.map_cons, List.map_nil]
   have e1 : (xsOf binary r).piece.num = r.lay.xnum := xstm_num _ _ _ _ hx
   have e2 : (xsOf binary r).piece.gen = 0 := rfl
@@ -796,13 +808,15 @@ theorem render_is_xrefstream (garbage : Bytes) (binary : Bool) (r : Rev) (hg : N
       f.bytes = (renderHistory garbage binary [(r, .auto)]).1 ∧ f.WF subs w0 w1 w2 r.root ∧
       (renderHistory garbage binary [(r, .auto)]).2.2.2 =
         [⟨f.objs.map (fun q => ((q.1.num, q.1.gen), (q.1.val q.2).val)), r.frees.map Prod.fst, r.root⟩] ∧
-      f.objs.map (fun q => ((q.1.num, q.1.gen), (q.1.val q.2).val)) =
-        r.objs.map (fun o => ((o.num, o.gen), valOf o)) ++ [((r.lay.xnum, 0), (f.xs.val f.xofs).val)] := by
+      ((∀ o ∈ r.objs, isVal o = true) → f.objs.map (fun q => ((q.1.num, q.1.gen), (q.1.val q.2).val)) =
+        r.objs.map (fun o => ((o.num, o.gen), valOf o)) ++ [((r.lay.xnum, 0), (f.xs.val f.xofs).val)]) ∧
+      f.objs.map Prod.fst = r.objs.map pieceOf ++ [f.xs.piece] ∧ f.xs.piece.num = r.lay.xnum ∧ f.xs.piece.gen = 0 := by
   obtain ⟨hb, hs⟩ := xfileOf_bytes garbage binary r h
   rw [hb] at hlen
   refine ⟨xfileOf garbage binary r, _, _, _, _, hb.symm, xfileOf_wf garbage binary r hg h hstore hlen, ?_,
-    xfileOf_written garbage binary r h⟩
-  rw [hs, xfileOf_written garbage binary r h, xfileOf_xofs garbage binary r h.objs, renderObjs_body r.objs _ h.objs,
-    pieces_written r.objs _ h.objs]
+    xfileOf_written garbage binary r h, ?_, xstm_num _ _ _ _ (Nat.le_of_lt (h.numsFit _ (by simp))), rfl⟩
+  · rw [hs, xfileOf_written_gen garbage binary r h, xfileOf_xofs garbage binary r h.objs]
+  · rw [xfileOf_objs, List.map_append, place_fst]
+    rfl
 
 end Parsley.LoaderE2E
